@@ -50,6 +50,11 @@ impl Arena {
         self.set_node(from_id, GraphNode::Empty);
     }
 
+    #[cfg(feature = "verif-hooks")]
+    pub fn verif_lines_len(&self) -> usize {
+        self.lines.len()
+    }
+
     pub fn nodes(&self) -> &Vec<GraphNode> {
         &self.nodes
     }
